@@ -157,7 +157,7 @@ def argsort {γ : Type} (le : γ → γ → Bool) (xs : List γ) : List Nat :=
 
 /-- numpy.roll(x, k) on a list -/
 def roll {γ : Type} (xs : List γ) (k : Nat) : List γ :=
-  let n := xs.length
-  if n = 0 then xs else xs.drop (n - k % n) ++ xs.take (n - k % n)
+  if xs.length = 0 then xs
+  else xs.drop (xs.length - k % xs.length) ++ xs.take (xs.length - k % xs.length)
 
 end Np
